@@ -71,6 +71,7 @@ class Model:
         self.x0 = {}
         self.d0 = {}
         self.name = 'gen'
+        self.mingap = math.inf   # smallest non-zero |lhs-rhs| seen in a comparison since it was last reset (strict-comparison epsilon guard)
 
     # ---------------------------------------------------------------- NL text
     def expr_nl(self, e, out):
@@ -243,6 +244,8 @@ class Model:
             return False
         if k in REL:
             a, b = self.ev(e[1], x, dv), self.ev(e[2], x, dv)
+            if a != b and abs(a - b) < self.mingap:
+                self.mingap = abs(a - b)
             return {'lt': a < b, 'le': a <= b, 'eq': a == b, 'ge': a >= b, 'gt': a > b, 'ne': a != b}[k]
         if k == 'and':
             return self.lg(e[1], x, dv) and self.lg(e[2], x, dv)
